@@ -2205,7 +2205,11 @@ class SymEval:
             # element-wise truth: numeric constants decide, generic symbols do not
             v = args[0]
             items = [v.get(i) for i in v.indices()] if isinstance(v, SArray) else list(v)
-            ts = [self.truth(x) for x in items]
+            # a generic symbol stands for a generic real number: not zero.  The special points
+            # (a component that is exactly zero) are separate configurations of the rules that
+            # care (e.g. the partially zero lever arm of H-JACOBIAN)
+            ts = [self.truth(x) if not (isinstance(x, Rat) and not self.A.is_const(x))
+                  else (False if self.A.is_zero(x) else True) for x in items]
             if q.endswith('all'):
                 if any(t is False for t in ts):
                     return False
